@@ -251,6 +251,21 @@ static void dump_code(std::vector<std::string>& out) {
   out.push_back("D unresolved " + std::to_string(c.unresolved_fixup_count()));
 }
 
+// The image after flatten + resolve_cross_section_fixups + relocate_to_base: what is finally executed / stored.
+// (Destroys the relocation state, so it is taken after `dump_code`.)
+static void dump_image(std::vector<std::string>& out) {
+  CodeHolder& c = P->code;
+  Error e = c.flatten();
+  if (e != Error::kOk) { out.push_back("I err flatten " + err_str(e)); return; }
+  e = c.resolve_cross_section_fixups();
+  if (e != Error::kOk) { out.push_back("I err resolve " + err_str(e)); return; }
+  e = c.relocate_to_base(0x10000000u);
+  if (e != Error::kOk) { out.push_back("I err relocate " + err_str(e)); return; }
+  for (Section* s : c.sections())
+    out.push_back("I sec " + std::to_string(s->section_id()) + " @" + std::to_string(s->offset()) + " " +
+                  (s->buffer_size() ? vh::bytes_to_hex(s->data(), s->buffer_size()) : std::string("-")));
+}
+
 // ---------------------------------------------------------------------------------------------------------------
 // Instruction menu for the generator
 // ---------------------------------------------------------------------------------------------------------------
@@ -485,6 +500,7 @@ static void step(const std::string& line, std::vector<std::string>& out) {
     if (w[0] == "finalize") {
       out.push_back("F " + err_str(P->first_err));
       dump_code(out);
+      dump_image(out);
       return;
     }
     // label / section creation is not an emitter call that serialize_to replays: it happens whatever was refused before
@@ -516,6 +532,7 @@ static void step(const std::string& line, std::vector<std::string>& out) {
     Error e2 = P->em->finalize();
     out.push_back("F " + err_str(e2));
     dump_code(out);
+    dump_image(out);
     return;
   }
   std::string r;
